@@ -113,7 +113,7 @@ pub struct Case {
 }
 
 /// Pieces the generated texts are concatenated from ("\r" + "\n" pieces merge naturally).
-const PIECES: [&str; 11] = ["a", "b", " ", "\n", "\r", "\r\n", "é", "漢", "😀", "𝒳", ""];
+const PIECES: [&str; 12] = ["a", "b", " ", "\n", "\r", "\r\n", "é", "漢", "😀", "𝒳", "", "\u{feff}"];
 const TERMS: [&str; 3] = ["\n", "\r", "\r\n"];
 
 fn show(text: &str) -> String {
@@ -584,8 +584,37 @@ fn histories(_t: Tier) -> BoxedStrategy<Case> {
 
 
 
+/// Long lines (60..400 characters, mostly ASCII with a rare wide character) sliced at columns
+/// around the multiples of 64 and at random columns.
+fn long_lines(_t: Tier) -> BoxedStrategy<Case> {
+    let ch = prop_oneof![40 => proptest::sample::select(vec!['a', 'b', ';', ' ', '0', '(', '}']), 1 => proptest::sample::select(vec!['é', '漢', '😀', '\u{feff}'])];
+    let line = prop_oneof![
+        2 => vec(ch, 60..400).prop_map(|v| v.into_iter().collect::<String>()),
+        2 => (60usize..400).prop_map(|n| "v12;".repeat(n / 4 + 1)[..n].to_string()),
+    ];
+    (
+        vec(line, 1..4),
+        proptest::sample::select(vec!["\n", "\r\n", "\r"]),
+        vec((any::<u16>(), 0u32..7, -2i64..3, 0u32..6, any::<bool>()), 1..12),
+    )
+        .prop_map(|(lines, term, sels)| {
+            let text = lines.join(term);
+            let reqs = sels
+                .into_iter()
+                .map(|(l, k, d, span, random)| {
+                    let li = idx16(l, lines.len());
+                    let col = if random { u32::from(l) % 420 } else { (i64::from(k) * 64 + d).max(0) as u32 };
+                    Req::Slice(li as u32, col, span)
+                })
+                .collect();
+            Case { text, reqs }
+        })
+        .boxed()
+}
+
 fn subs() -> Vec<Sub> {
     vec![
+        gen_sub("long_lines", long_lines, |t| t.pick(4_000, 100_000), check),
         custom_sub::<Case>("exhaustive_small", run_exhaustive, check),
         custom_sub::<Case>("slices", run_slices, check),
         gen_sub("histories", histories, |t| t.pick(20_000, 1_000_000), check),
